@@ -1085,7 +1085,10 @@ func (ex *Exec) applyContract(st *State, fc *FuncContract, pc *preparedCall, k f
 		}
 		ex.assertClauseNamed(st, env, fmt.Sprintf("%s#pre@%s[%s]", ex.name, calleeShort, label), rq, pc.call.Pos())
 	}
-	if fc.Iter != nil {
+	if fc.Iter != nil && (!fc.Iter.Dual || ex.dualIteratorApplies(fc, pc)) {
+		if fc.Iter.Dual {
+			ex.intrinsics["iterator clauses (yields/where/distinct/complete) of "+shortKey(fc.Key)+": assumed for effectful literal callbacks, not checked against its body (trusted)"] = true
+		}
 		ex.applyIterator(st, fc, pc, env, k)
 		return
 	}
@@ -1395,6 +1398,39 @@ func isTemporaryAlloc(ex *Exec, e ast.Expr) bool {
 				return true
 			}
 		}
+	}
+	return false
+}
+
+// dualIteratorApplies: the call hands the iterator's callback parameter a function literal for which the contract
+// of the function under verification states closure invariants (an effectful callback); every other call of a
+// dual contract goes through its plain `callback pure` clauses.
+func (ex *Exec) dualIteratorApplies(fc *FuncContract, pc *preparedCall) bool {
+	if ex.fc == nil || pc.fn == nil {
+		return false
+	}
+	sig, ok := pc.fn.Type().(*types.Signature)
+	if !ok {
+		return false
+	}
+	for i := 0; i < sig.Params().Len() && i < len(pc.args); i++ {
+		pn := sig.Params().At(i).Name()
+		if i < len(fc.ParamNames) && fc.ParamNames[i] != "" {
+			pn = fc.ParamNames[i]
+		}
+		if pn != fc.Iter.FuncParam {
+			continue
+		}
+		cb := pc.args[i]
+		if cb.Clo == nil || cb.Clo.Lit == nil {
+			return false
+		}
+		ord, ok := ex.cloOrd[cb.Clo.Lit]
+		if !ok {
+			return false
+		}
+		ls := ex.fc.Closures[ord]
+		return ls != nil && len(ls.Invariants) > 0
 	}
 	return false
 }
